@@ -141,6 +141,21 @@ class Batch:
                         self.sigs.add(data[k:k + 8])
             if p.returncode == 0:
                 break
+            if p.returncode == 3:
+                # the worker stopped itself after reporting a violation (its memory may be corrupted): continue after that run
+                last = [v for v in self.viol if not v.get("fatal")]
+                done_to = int(last[-1].get("i", cur)) if last else cur
+                for line in reversed(p.stdout.splitlines()):
+                    if line.startswith("V "):
+                        done_to = int(parse_kv(line).get("i", cur)); break
+                n_done = (done_to - cur) // stride + 1
+                remaining -= n_done; cur = done_to + stride
+                with self.lock:
+                    self.restarts += 1
+                    too_many = self.restarts > 400
+                if too_many or (deadline and time.time() > deadline):
+                    break
+                continue
             # the worker died: attribute, then continue after the run it was in
             with self.lock:
                 self.restarts += 1
@@ -256,7 +271,7 @@ def confirm_and_report(prop, bins, seed, batches, known):
         log("  %s" % p.stdout.strip().splitlines()[-1])
         log("VIOLATION property=%s replay=%s" % (prop, out))
         reported += 1
-    return reported + max(0, len(groups) - 4), len(known_hits), infra
+    return reported, len(known_hits), infra
 
 def determinism(binpath, engine, prop, seed, n, extra=()):
     """Each of n indices is executed twice, in different worker processes at two worker counts; signatures must agree."""
@@ -400,9 +415,9 @@ def check_engine_a(prop, tier, seed):
           "wall_s": round(wall, 2), "violations": n_new}
     write_evidence(prop, ev)
     log("%s %s: %d evaluations, %d distinct non-trivial, %d new violation group(s), %d known finding(s), %.1f s" % (prop, tier, cov["evaluations"], cov["distinct_nontrivial"], n_new, n_known, wall))
-    if infra:
-        return 2
-    return 1 if n_new else 0
+    if n_new:
+        return 1          # at least one violation passed both gates (infrastructure notes above concern other, non-reproducible events)
+    return 2 if infra else 0
 
 # ----------------------------------------------------------------------------------------------- main
 def main():
